@@ -99,4 +99,61 @@ func c17Deserialized(w *W) {
 	}
 	w.Note(fmt.Sprintf("deserialized tapes: every state of the delete/replace history graph to depth %d, serialized in each of the 4 modes and deserialized", hp.maxDepth))
 	exploreHistories(w, hp)
+
+	// one long-lived Serializer and one long-lived destination: every ordered triple of
+	// small tapes (incl. tapes whose strings collide in the dedup table), every mode
+	ts := c11Tapes(w)
+	var small []*serTape
+	for _, t := range ts {
+		if !t.big && !t.corrupt {
+			small = append(small, t)
+		}
+	}
+	w.Note(fmt.Sprintf("reused Serializer and destination: for every ordered triple (a,b,c) of %d small tapes and every mode: Serialize(a); Serialize(b); Deserialize(blob b); Serialize(c); Deserialize(blob c) on ONE Serializer into ONE destination that is never reset; both results must obey the tape format", len(small)))
+	ser := simdjson.NewSerializer()
+	var dst *simdjson.ParsedJson
+	for m := 0; m < 4; m++ {
+		for ai, a := range small {
+			for bi, b := range small {
+				for ci, c := range small {
+					w.res.States++
+					if !w.Mine() || w.Expired() || w.TooManyViolations() {
+						continue
+					}
+					ser.CompressMode(simdjson.CompressMode(m))
+					name := fmt.Sprintf("mode %s: Serialize(%s); Serialize(%s); Deserialize; Serialize(%s); Deserialize", modeNames[m], a.name, b.name, c.name)
+					w.cur.Set("C17-reused-serializer", modeNames[m], []byte(fmt.Sprint(ai, bi, ci)))
+					serialize(ser, a.pj)
+					for _, t := range []*serTape{b, c} {
+						blob, p := serialize(ser, t.pj)
+						w.res.Transitions++
+						w.res.Evaluations++
+						w.res.Validated++
+						bad := ""
+						if p != "" {
+							bad = "Serialize panicked: " + p
+						} else {
+							out, err, p2 := deserialize(ser, append([]byte(nil), blob...), dst)
+							switch {
+							case p2 != "":
+								bad = "Deserialize panicked: " + p2
+							case err != nil:
+								bad = "Deserialize of a freshly serialized tape failed: " + err.Error()
+							default:
+								dst = out
+								if terr := tapeErr(out, ref.TapeOpts{AllowNop: true, StrictNop: true}); terr != nil {
+									bad = "deserialized tape violates the format: " + terr.Error()
+								}
+							}
+						}
+						if bad != "" {
+							w.Violate(Violation{Harness: "C17-reused-serializer", Fingerprint: "C17/reused-serializer", What: name + ": " + bad, Case: []byte(name), CaseText: name, Config: modeNames[m]})
+							ser, dst = simdjson.NewSerializer(), nil
+							break
+						}
+					}
+				}
+			}
+		}
+	}
 }
